@@ -165,6 +165,12 @@ def pool():
     P['macro_d'] = '#define SCALE(v) ((v) << 1)\nchar r;\nvoid main() { r = SCALE(3); }\n'
     P['macro_e'] = '#define SCALE(v, by) ((v) << (by))\nchar r;\nvoid main() { r = SCALE(3, 2); }\n'
     P['macro_f'] = '#define SCALE 4\nchar r;\nvoid main() { r = SCALE; }\n'
+    P['farbranch'] = 'char a, b;\nvoid main() { if (a == b) { ' + ' '.join('a = a + %d;' % (k % 7 + 1) for k in range(30)) + ' } b = 1; while (a <= b) { ' + ' '.join('b = b + %d;' % (k % 5 + 1) for k in range(30)) + ' } }\n'
+    P['farbranch2'] = 'char c, d;\nvoid f() { if (c != d) { ' + ' '.join('c = c + %d;' % (k % 3 + 1) for k in range(30)) + ' } }\nvoid main() { f(); if (c < d) { ' + ' '.join('d = d + %d;' % (k % 4 + 1) for k in range(30)) + ' } }\n'
+    P['literals_same_text'] = 'char *g1; char *g2; char *g3;\nvoid box(char *a, char *b, char *c) { g1 = a; g2 = b; g3 = c; }\nvoid main() { box("+------+", "| GAME |", "+------+"); box("x", "x", "x"); }\n'
+    P['macro_g'] = '#define AREA(w, h) ((w) * 4 + (h))\nchar r;\nvoid main() { r = AREA(2, 3); }\n'
+    P['macro_h'] = '#define AREA(w, h) ((w) + (h) * 8)\nchar r;\nvoid main() { r = AREA(2, 3); }\n'
+    P['macro_i'] = '#define AREA(w, h) ((h) - (w))\nchar r;\nvoid main() { r = AREA(2, 3); }\n'
     P['superchip'] = 'superchip char s1; superchip short s2; char z1;\nvoid main() { s1 = z1; s2 = s1; }\n'
     return P
 
